@@ -25,7 +25,7 @@ BUDGET = {'quick': (600, 1500), 'thorough': (1800, 3600)}
 TECHNIQUE = 'runtime monitoring: grammar-recogniser monitor (independent RFC 4880 11.3 parser) + differential import comparison'
 
 SIGNERS = ['ed25519_0', 'rsa1024_0', 'dsa1024_0', 'ecdsa_p256_0', 'ecdsa_k256_0']
-CONTENTS = ['empty', 'ascii', 'utf8', 'latin1', 'binary', 'crlf', 'big']
+CONTENTS = ['empty', 'ascii', 'utf8', 'latin1', 'binary', 'crlf', 'big', 'far']
 
 
 def cases(tier, seed):
@@ -41,7 +41,7 @@ def cases(tier, seed):
                    'encrypt': r.choice([None, None, 'key', 'pass', 'key-then-sign']), 'hashes': [r.choice(list(sigwork.HASHES)) for _ in range(ns)]})
     # megabytes under every compression algorithm (sizes around the points where a length-dependent parameter could change: 0.9, 1.0, 2 MiB)
     for j, comp in enumerate(encwork.COMPRESSIONS):
-        for k_, content in enumerate(['huge', 'huge2', 'zeros1m'] if tier == 'quick' else ['huge', 'huge2', 'zeros1m', 'huge3']):
+        for k_, content in enumerate(['huge', 'huge2', 'zeros1m', 'far'] if tier == 'quick' else ['huge', 'huge2', 'zeros1m', 'far', 'huge3']):
             cs.append({'i': 100000 + 10 * j + k_, 'content': content, 'format': 'b', 'filename': None, 'mtime': 1, 'comp': comp, 'signers': SIGNERS[:(j + k_) % 2], 'same_time': False,
                        'encrypt': [None, 'key'][(j + k_) % 2] if content == 'huge' else None, 'hashes': ['SHA256'][:(j + k_) % 2]})
     for i in range(8):
@@ -68,6 +68,10 @@ def content_of(name, r):
         return bytes(r.getrandbits(8) for _ in range(1024)) * 1200, None          # 1.2 MB
     if name == 'huge2':
         return bytes(r.getrandbits(8) for _ in range(997)) * 903 + b'tail', None   # just over 900,000 octets
+    if name == 'far':
+        # repeats that lie 9 000 to 30 000 octets back: a compressor uses them only with the full 32 KiB window, and only such a window can read them
+        blk = bytes(r.getrandbits(8) for _ in range(30000))
+        return blk + blk[:21000] + blk[9000:] + blk[100:12000], None
     if name == 'huge3':
         return bytes(r.getrandbits(8) for _ in range(4096)) * 600, None            # 2.4 MB
     return bytes(r.getrandbits(8) for _ in range(1024)) * 600, None
@@ -80,7 +84,7 @@ def build(d, r):
     md = {'body': 'ascii', 'comp': d['comp']}
     kw = {'compression': getattr(CompressionAlgorithm, d['comp'])}
     fmt = d['format']
-    if isinstance(content, bytes) and fmt in ('t', 'u') and d['content'] in ('binary', 'big', 'huge', 'huge2', 'huge3', 'zeros1m', 'latin1') and not charset:
+    if isinstance(content, bytes) and fmt in ('t', 'u') and d['content'] in ('binary', 'big', 'huge', 'huge2', 'huge3', 'zeros1m', 'far', 'latin1') and not charset:
         fmt = 'b'
     if charset:
         kw['encoding'] = charset
